@@ -193,6 +193,13 @@ func driveSec1(c *ctx) {
 	pts = append(pts, pointsWithXAboveN(r, 3)...)
 
 	// every length 0..66
+	// near-curve points: y^2 and x^3 + 7 equal in all internal limbs but one (aimed at the comparison the curve check makes)
+	for _, p := range nearCurvePoints(r, c.scale(2, 8)) {
+		try(encUnc(p))
+		if pt, err := secp256k1.NewPointFromCoords(be32(p.x), be32(p.y)); err == nil {
+			c.E("lib.Unexpected", "what", "NewPointFromCoords accepted a point off the curve", "x", h32(p.x), "y", h32(p.y), "enc", encOrPanic(pt))
+		}
+	}
 	for l := 0; l <= 66; l++ {
 		b := randBytes(r, l)
 		try(b)
